@@ -30,7 +30,7 @@ def case_from_bytes(data: bytes) -> dict[str, Any] | None:
         return None
     b0 = data[0]
     ae, _, xae = data[1:].partition(b"\n")
-    kinds = [k for k in _KINDS if k in c19.KINDS] or list(c19.KINDS)
+    kinds = ([k for k in _KINDS if k in c19.KINDS] or list(c19.KINDS)) + list(c19.REJECT_KINDS)
     return {"cfg": c19._CFGS[b0 % len(c19._CFGS)], "kind": kinds[(b0 // len(c19._CFGS)) % len(kinds)], "ae": _hdr(ae), "xae": _hdr(xae), "prev": None}
 
 
